@@ -532,6 +532,7 @@ def probe_known():
             KNOWN_SEEN.add("doc:other-handle-survives-remove")
         import pickle
         j.sp
+        sibling = copy.copy(j)      # F22 needs a shallow copy: the shared state point object then lists both handles
         try:
             pickle.loads(pickle.dumps(j))
         except RecursionError:
